@@ -15,7 +15,7 @@ import ast
 import typing as ty
 
 from ..engine import Analysis
-from ..model import AnalysisError, FuncInfo, ClassInfo, dotted, norm, walk_own, parents, kwarg, is_within, const_str
+from ..model import AnalysisError, FuncInfo, ClassInfo, dotted, norm, walk_own, parents, kwarg, is_within, const_str, shape, alpha
 from ..cfg import CFG, Node, explore, format_path, token_kind, ANY_E, ANY_B
 from ..report import Collector
 from . import prop
@@ -238,6 +238,16 @@ def check_pairing(A: Analysis, col: Collector, R: RunFn, rule: str, pair: str, o
     if not opens:
         return 0
     if not closes:
+        # the closing operation may have been moved into a helper: the pairing is decided
+        # intraprocedurally, so that refactoring makes the analysis inapplicable (exit 2),
+        # not the property violated
+        key = what.split("(")[0].rsplit(".", 1)[-1].strip()
+        for g in A.closure(A.callees(R.fn), limit=60):
+            if g.qualname == R.fn.qualname or g.module is not R.fn.module:
+                continue
+            src = " ".join(norm(c.func, 60) for c in A.calls(g))
+            if key and key in src:
+                raise AnalysisError(f"{R.fn.qualname}: the closing operation of pair '{pair}' ({what}) is not in the run function but appears in helper {g.qualname}; the pairing rule is intraprocedural and cannot decide this shape")
         col.fail(rule, R.fn.qualname, f"{pair}:no-close", f"{pair}: opened but no closing operation exists in the function ({what})", A.loc(R.fn.node))
         return len(opens)
     grouped: dict[str, dict] = {}
@@ -1546,7 +1556,7 @@ def protocol_steps(A: Analysis, fn: FuncInfo, depth: int = 2) -> list[str]:
                 if isinstance(t, ast.Attribute) and t.attr == "errored" and isinstance(t.value, ast.Name):
                     out.append(f"errored={norm(n.value)}")
         elif isinstance(n, ast.If) and "errored" in norm(n.test) and "is not None" in norm(n.test):
-            out.append("hit-test(" + norm(n.test).replace(" ", "") + ")")
+            out.append("hit-test(" + shape(n.test).replace(" ", "") + ")")
         elif isinstance(n, ast.ExceptHandler):
             out.append("except:" + norm(n.type))
         elif isinstance(n, ast.Raise) and n.exc is None:
@@ -1608,9 +1618,10 @@ def check_c17(A: Analysis, col: Collector):
                 keys = sorted(norm(k) for k in n.value.keys) if isinstance(n.value, ast.Dict) else [norm(n.value)]
                 steps.append("return_values=" + ",".join(keys))
             elif isinstance(n, ast.While):
-                t = norm(n.test)
-                if "exec_graph.nodes" in t:
-                    steps.append("loop-until-all-done" + ("+tasks" if "tasks" in t else ""))
+                if any(isinstance(a, ast.Attribute) and a.attr == "nodes" for a in ast.walk(n.test)) and any(isinstance(a, ast.Attribute) and a.attr == "done" for a in ast.walk(n.test)):
+                    # which other collections keep the loop alive: local lists tested for truth
+                    extra = sorted(v.id for v in (n.test.values if isinstance(n.test, ast.BoolOp) else []) if isinstance(v, ast.Name))
+                    steps.append("loop-until-all-done" + ("+runnable-list" if extra else ""))
         seqs[name] = steps
     col.notes["expander_steps"] = seqs
     core = lambda seq: [s for s in seq if not s.startswith("worker.submit")]
